@@ -22,6 +22,8 @@ type State struct {
 	Pooled   T // refs obtained from a sync.Pool in this call
 	Released T // refs given back with Put
 	Frozen   T // refs viewed by an unsafe string
+	Now      T // ghost: Unix seconds returned by the most recent time.Now() on this path (arbitrary before the first)
+	NowN     T // ghost: number of time.Now() calls on this path
 	// Priv: for a private local (an allocation whose address never escapes), the heap version
 	// right after the last store to it; loads read that version, whatever was written elsewhere since
 	Priv map[*ssa.Alloc][2]T
@@ -184,6 +186,8 @@ type FX struct {
 	curBlock *ssa.BasicBlock
 	modRefs []T // refs this function may modify (from its modifies clause)
 	retCovers []T
+	anteCovers map[string][]T // per ensures label: (path ∧ antecedent) at each return
+	anteOrder  []string
 	labels *labelState
 	dynAssume T
 	stampN   int64
@@ -834,6 +838,8 @@ func (fx *FX) run() {
 	st.Pooled = T{"((as const (Array Int Bool)) false)", SSet}
 	st.Released = st.Pooled
 	st.Frozen = st.Pooled
+	st.Now = fx.fresh("nonow", SInt)
+	st.NowN = num(0)
 	fx.entry = st.clone()
 	fx.assume(tTrue, not(sel(st.Alloc, num(0))))
 	fx.rngPos0 = fx.fresh("rngpos0", SInt)
@@ -1269,6 +1275,8 @@ func (fx *FX) mergeStates(conds []T, sts []*State) *State {
 		res.Pooled = ite(conds[i], sts[i].Pooled, res.Pooled)
 		res.Released = ite(conds[i], sts[i].Released, res.Released)
 		res.Frozen = ite(conds[i], sts[i].Frozen, res.Frozen)
+		res.Now = ite(conds[i], sts[i].Now, res.Now)
+		res.NowN = ite(conds[i], sts[i].NowN, res.NowN)
 	}
 	res.H = fx.def("H", res.H)
 	res.Hs = fx.def("Hs", res.Hs)
@@ -1452,6 +1460,16 @@ func (fx *FX) enterLoop(li *loopInfo, h *ssa.BasicBlock, conds []T, sts []*State
 			switch in.(type) {
 			case *ssa.Alloc, *ssa.MakeSlice, *ssa.MakeMap, *ssa.MakeInterface, *ssa.MakeClosure, ssa.CallInstruction:
 				allocates = true
+			}
+		}
+	}
+	for blk := range li.body {
+		for _, in := range blk.Instrs {
+			if ci, ok := in.(ssa.CallInstruction); ok {
+				if cal := ci.Common().StaticCallee(); cal != nil && cal.String() == "time.Now" {
+					st.Now = fx.fresh("nowloop", SInt)
+					st.NowN = fx.fresh("nowcalls", SInt)
+				}
 			}
 		}
 	}
